@@ -252,6 +252,43 @@ theorem marker_tab (bs sc : Nat) (ws : List Char) (hne : ws ≠ [])
           ↓reduceIte]
         refine ⟨?_, ?_, ?_⟩ <;> first | trivial | omega
 
+/-- the loop stops at the first non-blank character: what follows the blank run is irrelevant -/
+theorem quoteLoop_prefix (bs adj : Nat) (ws : List Char) (hws : ∀ c ∈ ws, c = ' ' ∨ c = '\t') (c : Char)
+    (hc : c ≠ ' ' ∧ c ≠ '\t') (tail : List Char) (offset n : Nat) :
+    quoteLoop bs adj offset (ws ++ c :: tail) n = quoteLoop bs adj offset ws n := by
+  induction ws generalizing offset n with
+  | nil => simp [quoteLoop, hc.1, hc.2]
+  | cons d rest ih =>
+    have hr : ∀ c ∈ rest, c = ' ' ∨ c = '\t' := fun c h => hws c (List.mem_cons_of_mem _ h)
+    rcases hws d (by simp) with hd | hd
+    · subst hd
+      simp only [List.cons_append, quoteLoop, show (' ' = '\t') = False by decide, if_false, if_true]
+      exact ih hr _ _
+    · subst hd
+      simp only [List.cons_append, quoteLoop, if_true]
+      exact ih hr _ _
+
+/-- on a real line (blank run `ws`, then a non-blank character and anything else) the rule records
+what it records for the blank run alone -/
+theorem quoteOffsets_prefix (fixed : Bool) (bs sc : Nat) (ws : List Char) (hne : ws ≠ [])
+    (hws : ∀ c ∈ ws, c = ' ' ∨ c = '\t') (c : Char) (hc : c ≠ ' ' ∧ c ≠ '\t') (tail : List Char) :
+    quoteOffsets fixed bs sc (ws ++ c :: tail) = quoteOffsets fixed bs sc ws := by
+  cases ws with
+  | nil => exact absurd rfl hne
+  | cons d rest =>
+    have hr : ∀ c ∈ rest, c = ' ' ∨ c = '\t' := fun c h => hws c (List.mem_cons_of_mem _ h)
+    simp only [List.cons_append, quoteOffsets]
+    rcases hws d (by simp) with hd | hd
+    · subst hd
+      simp only [if_true, quoteLoop_prefix bs 0 rest hr c hc tail]
+    · subst hd
+      simp only [show ('\t' = ' ') = False by decide, if_false, if_true]
+      split
+      · simp only [quoteLoop_prefix bs 0 rest hr c hc tail]
+      · have := quoteLoop_prefix bs 1 ('\t' :: rest) (by intro x hx; exact hws x hx) c hc tail (sc + 1) 0
+        simp only [List.cons_append] at this
+        simp only [this]
+
 /-- spelling-independence, stated directly -/
 theorem marker_tab_spellings (bs sc : Nat) (ws ws' : List Char) (hne : ws ≠ []) (hne' : ws' ≠ [])
     (hws : ∀ c ∈ ws, c = ' ' ∨ c = '\t') (hws' : ∀ c ∈ ws', c = ' ' ∨ c = '\t')
